@@ -186,6 +186,7 @@ EventOK(e) ==
                            ELSE IF PairOnly(e) THEN e.out = "ok" /\ AxisRelOK(e)
                            ELSE SummOK(e) /\ (IsAxisStat(e) => AxisRelOK(e)))
       [] e.ev = "corr" -> CorrOK(e)
+      [] e.ev = "corrpair" -> e.out = "ok" /\ (\A x \in DOMAIN e.rel : Abs(e.rel[x]) <= 4) /\ (\A x \in DOMAIN e.diag : Abs(e.diag[x]) <= 4)
       [] e.ev = "dev"  -> DevOK(e)
       [] e.ev = "devnan" -> DevNanOK(e)
       [] e.ev = "ent"  -> EntOK(e)
